@@ -11,7 +11,8 @@ env = dict(os.environ, GOFLAGS="-mod=mod", GOPROXY="off", GOSUMDB="off", GOTOOLC
 def sh(cmd, cwd=wt, timeout=1800):
     p = subprocess.run(cmd, shell=True, cwd=cwd, env=env, capture_output=True, text=True, timeout=timeout)
     return p.returncode, (p.stdout + p.stderr)
-meta = {"property": pid, "wave": 2, "demo_path": os.path.join(demo_dir, "zz_seed_demo_test.go")}
+OUT = os.environ.get("SEEDOUT", "seeded2")
+meta = {"property": pid, "wave": int(OUT[-1]) if OUT[-1].isdigit() else 1, "demo_path": os.path.join(demo_dir, "zz_seed_demo_test.go")}
 sh("git checkout -- . && git clean -fdq -e SEED")
 rc, out = sh("git apply --check SEED/patch.diff"); meta["patch_applies"] = "yes" if rc == 0 else "no: " + out[:200]
 shutil.copy(os.path.join(seed, "zz_seed_demo_test.go"), os.path.join(wt, demo_dir, "zz_seed_demo_test.go"))
@@ -23,7 +24,7 @@ if "--nosuite" not in sys.argv:
     rc, out = sh("go test -vet=off -count=1 -skip TestSeedDemo $(go list ./... | grep -v -e /SEED -e maddy-pam-helper)")
     meta["existing_suite_with_patch"] = "pass" if rc == 0 else "FAIL: " + "\n".join(l for l in out.splitlines() if "FAIL" in l)[:300]
 sh("git checkout -- . && rm -f %s/zz_seed_demo_test.go" % demo_dir)
-dst = os.path.join(V, "seeded2", pid); os.makedirs(dst, exist_ok=True)
+dst = os.path.join(V, OUT, pid); os.makedirs(dst, exist_ok=True)
 for f in ("patch.diff", "zz_seed_demo_test.go", "NOTES.md"):
     shutil.copy(os.path.join(seed, f), os.path.join(dst, f))
 ok = meta.get("patch_applies") == "yes" and meta.get("demo_without_patch") == "pass" and meta.get("demo_with_patch") == "fail" and meta.get("builds") == "yes" and meta.get("existing_suite_with_patch", "pass") == "pass"
